@@ -237,6 +237,9 @@ class TableKeyParameter(Parameter):
             # the table row to be used is statically specified -> no
             # need to decode anything!
             phys_val = self.table_row.short_name
+
+            # update the decode_state's table key
+            decode_state.table_keys[self.short_name] = self.table_row
         else:
             # Use DOP to decode
             key_dop = odxrequire(self.table.key_dop)
